@@ -88,6 +88,16 @@ def handle : List String → Verdict
         nontrivial := enc.contains 'B' || enc.contains 'W',
         tags := ["tree"] ++ sh, sig := "tree;" ++ String.intercalate "+" sh }
     | _, _ => .badOp
+  | ["evalcount", name, callsS, outH] =>
+    match callsS.toNat?, hexField outH with
+    | some calls, some out =>
+      -- each evaluation of the block's call shows as `<evK>`; K counts the evaluations in order
+      let marks := Bytes.countInfix [60, 101, 118] out        -- "<ev"
+      let inOrder := (List.range calls).all fun k => Bytes.hasInfix ([60, 101, 118] ++ (toString (k + 1)).toUTF8.toList ++ [62]) out
+      { predfail := if marks == calls && inOrder then none else
+          some s!"callee {name}: the single call of the block was evaluated {calls} time(s) but its slot was rendered {marks} time(s): {String.ofList (out.map fun c => Char.ofNat c.toNat)}",
+        nontrivial := true, tags := ["evalcount:" ++ name], sig := "evalcount;" ++ name }
+    | _, _ => .badOp
   | _ => .badOp
 
 end TemplVerif.Drive.C13
